@@ -1,10 +1,10 @@
 #!/bin/bash
-# tools/s7.sh [CxxmN…] — which properties the checks report for the round-7 seeds (facts in .scratch/s7)
+# tools/s7.sh [CxxmN…] — which properties the checks report for the round-7 seeds (facts in .scratch/${SDIR:-s7})
 cd /verif
-L=${@:-$(ls .scratch/s7)}
+L=${@:-$(ls .scratch/${SDIR:-s7})}
 for x in $L; do
   own=${x:0:3}
-  got=$(./check ALL --facts .scratch/s7/$x --no-evidence 2>&1 | grep "^VIOLATION" | sed 's/.*property=\(C[0-9]*\).*/\1/' | sort -u | tr '\n' ' ')
+  got=$(./check ALL --facts .scratch/${SDIR:-s7}/$x --no-evidence 2>&1 | grep "^VIOLATION" | sed 's/.*property=\(C[0-9]*\).*/\1/' | sort -u | tr '\n' ' ')
   if echo " $got" | grep -q " $own "; then st=own; elif [ -n "$got" ]; then st=other; else st=MISSED; fi
   echo "$x $st :: $got"
 done
